@@ -150,6 +150,7 @@ func (re *refExec) collect(objType string, sels []*Sel, groups *[]*fieldGroup, v
 			}
 		case SSpread:
 			if visited[s.Name] && !re.opts.NoMerge {
+				re.ex.Features["merged-key"]++
 				continue
 			}
 			visited[s.Name] = true
